@@ -383,6 +383,7 @@ func (s *Server) ReleaseTunnel(ctx context.Context, req *protocol.ReleaseTunnelR
 
 	if err := tun.RemoveCustomHostname(ctx, s.Chord, hostname); err != nil {
 		s.Logger.Warn("Failed to remove custom hostname when releasing tunnel", zap.String("hostname", hostname), zap.Object("client", client), zap.Error(err))
+		return nil, rpc.WrapErrorKV(tun.CustomHostnameKey(hostname), err)
 	}
 
 	return &protocol.ReleaseTunnelResponse{}, nil
